@@ -645,7 +645,7 @@ func c20(r *engine.Run) {
 	r.Finish(engine.Coverage{
 		"evaluations":         len(images),
 		"distinct_nontrivial": nontrivial.Len(),
-		"rule":                "distinct crash images (directory content) that differ from both the pre-operation and the post-operation image of their history",
+		"rule":                "a case = (save history, number of logged file-system operations applied, bytes of the next data write applied); all of them are enumerated; non-trivial = the resulting directory image differs from both the pre-operation and the post-operation image of its history; distinct = by content hash of the image (names + bytes) within its history",
 		"distinct_images":     distinct.Len(),
 		"histories":           len(hists),
 		"per_history":         perHist,
